@@ -101,8 +101,12 @@ def main(prop, tier, seed):
                 run.distinct("reader:" + json.dumps(d))
             for qv in c["vals"]:
                 x, want = fl(qv["q"]), fl(qv["v"])
-                got = tr(x)
                 run.evaluations += 1
+                try:
+                    got = tr(x)
+                except Exception as e:
+                    V("reader-raises", "TableReader on rows %s: f(%s) raises %s: %s" % (d, x, type(e).__name__, e), dict(case=c))
+                    break
                 if abs(got - want) > 1e-12 * (1 + abs(want)):
                     V("reader-value", "TableReader on rows %s (file order %s): f(%s) = %r, the linear interpolant of the table gives %r" % (d, order, x, got, want), dict(case=c))
                     break
@@ -124,6 +128,16 @@ def main(prop, tier, seed):
             if got != [(float(x), y) for x, y in want]:
                 V("file-data", "TableReader on file %r holds %s, the file's data lines are %s" % (text, got, want), dict(case=c, text=text), no_final_newline=nonl)
                 continue
+            if not want:
+                # a file without data rows (comments and blank lines only): every x lies outside the tabulated range
+                for x in (0.0, 1.5, -2.0):
+                    try:
+                        v = tr(x)
+                    except Exception as e:
+                        V("reader-raises", "TableReader on file %r (no data rows): f(%s) raises %s: %s" % (text, x, type(e).__name__, e), dict(case=c, text=text), no_final_newline=nonl)
+                        break
+                    if v != 0.0:
+                        V("reader-value", "TableReader on file %r (no data rows): f(%s) = %r, outside the tabulated range the value is 0" % (text, x, v), dict(case=c, text=text), no_final_newline=nonl)
             for x, y in want:
                 if tr(float(x)) != y:
                     V("reader-value", "TableReader on file %r: f(%s) = %r, tabulated %r" % (text, x, tr(float(x)), y), dict(case=c, text=text), no_final_newline=nonl)
